@@ -288,13 +288,48 @@ def copt(x):
 # Go
 
 
-def go_build(cmd_name, tags="verif"):
-    """Build harness/cmd/<cmd_name> against /repo's working tree. Returns (ok, binpath or log)."""
-    shutil.copyfile(os.path.join(REPO, "go.sum"), os.path.join(HARNESS, "go.sum"))
-    out_bin = os.path.join(HARNESS, "bin", cmd_name)
+def harness_modfile():
+    """go.mod/go.sum for the harness module with `replace go-zero => REPO` (REPO is /repo
+    unless VERIF_REPO points at a scratch worktree)."""
+    d = os.path.join(ROOT, ".run", "mod-" + hashlib.sha256(REPO.encode()).hexdigest()[:10])
+    os.makedirs(d, exist_ok=True)
+    base = open(os.path.join(HARNESS, "go.mod")).read()
+    text = re.sub(r"replace github.com/zeromicro/go-zero => \S+", "replace github.com/zeromicro/go-zero => " + REPO, base)
+    mod = os.path.join(d, "go.mod")
+    if not os.path.exists(mod) or open(mod).read() != text:
+        with open(mod, "w") as f:
+            f.write(text)
+    shutil.copyfile(os.path.join(REPO, "go.sum"), os.path.join(d, "go.sum"))
+    return mod
+
+
+def write_overlay(files, tag):
+    """files: {path relative to REPO : absolute source path}. Returns overlay json path or None."""
+    if not files:
+        return None
+    d = os.path.join(ROOT, ".run")
+    os.makedirs(d, exist_ok=True)
+    ov = {"Replace": {os.path.join(REPO, rel): src for rel, src in files.items()}}
+    ovp = os.path.join(d, "overlay_%s_%d.json" % (tag, os.getpid()))
+    with open(ovp, "w") as f:
+        json.dump(ov, f)
+    return ovp
+
+
+def go_build(cmd_name, tags="verif", overlay=None, race=False):
+    """Build harness/cmd/<cmd_name> against REPO's working tree (optionally with overlay files
+    {repo-relative path: source under /verif} replacing/adding files in go-zero packages).
+    Returns (ok, binpath or log)."""
+    out_bin = os.path.join(HARNESS, "bin", cmd_name + ("-" + hashlib.sha256(REPO.encode()).hexdigest()[:6] if REPO != "/repo" else ""))
     os.makedirs(os.path.dirname(out_bin), exist_ok=True)
-    rc, out = sh(["go", "build", "-tags", tags, "-o", out_bin, "./cmd/" + cmd_name],
-                 cwd=HARNESS, env=goenv(), timeout=900)
+    cmd = ["go", "build", "-modfile", harness_modfile(), "-tags", tags, "-o", out_bin]
+    ovp = write_overlay(overlay, "build_" + cmd_name)
+    if ovp:
+        cmd += ["-overlay", ovp]
+    if race:
+        cmd.append("-race")
+    cmd.append("./cmd/" + cmd_name)
+    rc, out = sh(cmd, cwd=HARNESS, env=goenv(), timeout=900)
     return (rc == 0), (out_bin if rc == 0 else out)
 
 
